@@ -13,6 +13,7 @@ This private submodule is *not* intended for importation by downstream callers.
 
 # ....................{ IMPORTS                            }....................
 from ast import (
+    AsyncFunctionDef,
     ClassDef,
     FunctionDef,
     Load,
@@ -37,6 +38,7 @@ abstract syntax tree (AST) node classes).
 
 # ....................{ TYPES                              }....................
 TYPES_NODE_LEXICAL_SCOPE = frozenset((
+    AsyncFunctionDef,
     ClassDef,
     FunctionDef,
 ))
